@@ -11,6 +11,7 @@ package main
 
 import (
 	"math"
+	"sort"
 	"strconv"
 	"strings"
 
@@ -154,6 +155,7 @@ type c18Case struct {
 	withPos bool      // the model has positions / a merge map for this variant
 	withNrm bool      // the model has supplied normals for this variant
 	solid   bool      // emit the closedness / outwardness / volume oracles
+	huge    bool      // > 100000 vertices: sampled position / outward lines + the full volume oracle (quick), everything (thorough)
 	build   func() modeling.Mesh
 }
 
@@ -204,6 +206,12 @@ func (c *Ctx) c18EmitMesh(cs c18Case, m c18Mesh) {
 		return
 	}
 	c.Note(cs.kind + ".admissible")
+	if cs.huge {
+		c.c18EmitHuge(cs, m, kp, sc)
+		if c.Tier != "thorough" {
+			return
+		}
+	}
 	small := len(m.pos) <= c18PosLimit
 	if !small {
 		c.Note("large")
@@ -244,6 +252,56 @@ func (c *Ctx) c18EmitMesh(cs c18Case, m c18Mesh) {
 	if cs.withNrm && m.nrm != nil && small {
 		c.Emit("c18.holds.normals_outward", c18Join(kp, pos, c18V3s(m.nrm), idx), "true")
 	}
+}
+
+// c18EmitHuge: for a mesh of > 100000 vertices: positions of SAMPLED vertices (several complete rings + random ones) against
+// the model, the outward predicate on SAMPLED triangles (every 53rd + those touching the sampled rings' first vertices),
+// and the full volume oracle
+func (c *Ctx) c18EmitHuge(cs c18Case, m c18Mesh, kp, sc string) {
+	c.Note("huge")
+	nv := len(m.pos)
+	seen := map[int]bool{}
+	var ids []int
+	add := func(v int) {
+		if v >= 0 && v < nv && !seen[v] {
+			seen[v] = true
+			ids = append(ids, v)
+		}
+	}
+	add(0)
+	add(nv - 1)
+	// complete stretches of 400 consecutive vertices at 12 places (a ring of a 363-column sphere has 363 vertices)
+	for k := 0; k < 12; k++ {
+		start := c.Rng.Intn(nv)
+		if k < 4 {
+			start = []int{1, nv / 2, nv - 401, nv / 3}[k]
+		}
+		for j := 0; j < 400; j++ {
+			add(start + j)
+		}
+	}
+	for k := 0; k < 800; k++ {
+		add(c.Rng.Intn(nv))
+	}
+	sort.Ints(ids)
+	ps := make([]vector3.Float64, len(ids))
+	for i, v := range ids {
+		ps[i] = m.pos[v]
+	}
+	c.Emit("c18.possample."+cs.kind, c18Join(cs.params, sc, c18Ints(ids)), c18V3s(ps))
+	// sampled triangles with their positions
+	var tri []vector3.Float64
+	nt := len(m.idx) / 3
+	for t := 0; t < nt; t++ {
+		a, b, d := m.idx[3*t], m.idx[3*t+1], m.idx[3*t+2]
+		if t%53 == 0 || seen[a] && seen[b] && seen[d] {
+			if a < nv && b < nv && d < nv && a >= 0 && b >= 0 && d >= 0 {
+				tri = append(tri, m.pos[a], m.pos[b], m.pos[d])
+			}
+		}
+	}
+	c.Emit("c18.holds.outward_sample", c18Join(kp, sc, c18V3s(tri)), "true")
+	c.Emit("c18.holds.volume", c18Join(kp, sc, c18V3s(m.pos), c18Ints(m.idx)), "true")
 }
 
 // log-uniform in [0.01, 100]
@@ -373,6 +431,17 @@ func (c *Ctx) c18Pow2Edges(thorough bool) {
 		}
 		c.c18Cyl(n, false, false, n%2 == 1, c.c18Len(), c.c18Len())
 	}
+	// the cylinder's caps have sides+1 vertices and go through Mesh.Translate / Transform: 4095 / 4096 / 4097 sides in every run
+	for _, n := range []int{4095, 4096, 4097} {
+		c.Note("pow2-edge.cyl-cap")
+		c.c18Cyl(n, false, false, false, c.c18Len(), c.c18Len())
+	}
+	// one welded sphere with >= 131072 vertices (363 x 363: 131408) in every run
+	{
+		r := c.c18Len()
+		c.c18Emit(c18Case{kind: "sphere", params: "363 363", scalars: []float64{r}, size: r, admit: true, withPos: true, withNrm: true,
+			solid: true, huge: true, build: func() modeling.Mesh { return primitives.UVSphere(r, 363, 363) }})
+	}
 }
 
 func c18Int(v int) nodes.NodeOutput[int]           { return nodes.Value(v).Out() }
@@ -447,12 +516,117 @@ func (c *Ctx) c18Nodes() {
 	}
 }
 
+// every SUBSET of connected ports of each node wrapper (unconnected ports take the documented defaults), non-default values
+func (c *Ctx) c18NodeSubsets() {
+	for mask := 0; mask < 16; mask++ {
+		c.Note("node.subset.uvsphere")
+		radius, rows, cols, weld := 0.5, 10, 10, true
+		var data primitives.UvSphereNodeData
+		if mask&1 != 0 {
+			radius = 1.25
+			data.Radius = c18Float(radius)
+		}
+		if mask&2 != 0 {
+			rows = 6
+			data.Rows = c18Int(rows)
+		}
+		if mask&4 != 0 {
+			cols = 7
+			data.Columns = c18Int(cols)
+		}
+		if mask&8 != 0 {
+			weld = false
+			data.Weld = c18Bool(false)
+		}
+		kind := "sphere"
+		if !weld {
+			kind = "sphereu"
+		}
+		c.c18Emit(c18Case{kind: kind, params: strconv.Itoa(rows) + " " + strconv.Itoa(cols), scalars: []float64{radius}, size: radius,
+			admit: true, withPos: true, withNrm: weld, solid: true,
+			build: func() modeling.Mesh { return (&primitives.UvSphereNode{Data: data}).Value() }})
+	}
+	for mask := 0; mask < 16; mask++ {
+		c.Note("node.subset.hemisphere")
+		radius, rows, cols := 0.5, 20, 20
+		var data primitives.HemisphereNodeData
+		if mask&1 != 0 {
+			radius = 1.5
+			data.Radius = c18Float(radius)
+		}
+		if mask&2 != 0 {
+			rows = 5
+			data.Rows = c18Int(rows)
+		}
+		if mask&4 != 0 {
+			cols = 9
+			data.Columns = c18Int(cols)
+		}
+		if mask&8 != 0 {
+			data.Capped = c18Bool(false)
+		}
+		c.c18Emit(c18Case{kind: "hemi", params: strconv.Itoa(rows) + " " + strconv.Itoa(cols), scalars: []float64{radius}, size: radius,
+			admit: true, withPos: true, solid: true,
+			build: func() modeling.Mesh { return (&primitives.HemisphereNode{Data: data}).Value() }})
+	}
+	for mask := 0; mask < 32; mask++ {
+		c.Note("node.subset.cylinder")
+		sides, height, radius, top, bottom := 20, 1.0, 0.5, true, true
+		var data primitives.CylinderNodeData
+		if mask&1 != 0 {
+			sides = 7
+			data.Sides = c18Int(sides)
+		}
+		if mask&2 != 0 {
+			height = 2.5
+			data.Height = c18Float(height)
+		}
+		if mask&4 != 0 {
+			radius = 0.8
+			data.Radius = c18Float(radius)
+		}
+		if mask&8 != 0 {
+			top = false
+			data.Top = c18Bool(false)
+		}
+		if mask&16 != 0 {
+			bottom = false
+			data.Bottom = c18Bool(false)
+		}
+		both := top && bottom
+		c.c18Emit(c18Case{kind: "cyl", params: strconv.Itoa(sides) + " " + c18B01(!top) + " " + c18B01(!bottom),
+			scalars: []float64{radius, height}, size: math.Max(radius, height), admit: true,
+			withPos: both, withNrm: both, solid: both,
+			build: func() modeling.Mesh { return (&primitives.CylinderNode{Data: data}).Value() }})
+	}
+	for mask := 0; mask < 8; mask++ {
+		c.Note("node.subset.cube")
+		w, h, d := 1.0, 1.0, 1.0
+		var data primitives.CubeNodeData
+		if mask&1 != 0 {
+			w = 2
+			data.Width = c18Float(w)
+		}
+		if mask&2 != 0 {
+			h = 0.5
+			data.Height = c18Float(h)
+		}
+		if mask&4 != 0 {
+			d = 3
+			data.Depth = c18Float(d)
+		}
+		c.c18Emit(c18Case{kind: "cubeq", scalars: []float64{w, h, d}, size: 3, admit: true, withPos: true, withNrm: true, solid: true,
+			build: func() modeling.Mesh { return (&primitives.CubeNode{Data: data}).Value() }})
+	}
+}
+
 func runC18(c *Ctx) {
 	thorough := c.Tier == "thorough"
 	c18History = nil
 	defer c.c18ReplayHistory()
 	c.c18Defaults()
 	c.c18Nodes()
+	c.c18NodeSubsets()
 	c.c18Pow2Edges(thorough)
 	lim := 10
 	if thorough {
